@@ -1,5 +1,9 @@
 """Drive rig.machine_control.regions on JSON-described cases (runs under /venv/bin/python, PYTHONPATH=/repo).
 
+Every case runs in its own forked child of a process that has imported rig but never called it, so a case
+(a single call or a "history" of several calls) always starts from the state of a fresh interpreter and a
+failing case can be replayed alone; state carried from one call to the next is exercised by the histories.
+
 case kinds
   {"mode": "compress", "targets": [[x, y, [p, ...]], ...], "container": "set" | "list"}
       -> ["ok", order, [[region, coremask], ...]]   order = the cores [x, y, p] in the order in which the two
@@ -10,6 +14,8 @@ case kinds
          ["fail", 0] on the first ValueError  |  ["other", name]
   {"mode": "chips", "chips": [[x, y, level or null], ...]}
       -> ["ok", [word, ...]]
+  {"mode": "history", "calls": [case, ...]}   compress / tree cases run one after the other in ONE interpreter
+      -> ["ok", [result of each call, ...]]
   {"mode": "enum4", "bx", "by", "a", "b", "cls", "lo", "hi"}   (thorough tier: exhaustive 4 x 4 block)
       -> ["ok", [[[region, coremask], ...] or exception name, ...]]   one entry per mask in range(lo, hi)
 """
@@ -56,6 +62,8 @@ def run_case(c):
         except Exception as e:
             return ["other", type(e).__name__]
         return ["ok", rets, out]
+    if c["mode"] == "history":
+        return ["ok", [run_case(call) for call in c["calls"]]]
     if c["mode"] == "chips":
         try:
             return ["ok", [plain(get_region_for_chip(x, y) if l is None else get_region_for_chip(x, y, l))
@@ -89,6 +97,45 @@ def enum_b(cls, mask, i):
     return [False, bool(mask >> i & 1), not (mask >> i & 1), True][cls]
 
 
+def run_case_forked(c):
+    """run_case in a forked child; the parent (which has only imported rig) stays pristine."""
+    import json
+    import os
+    import signal
+    r, w = os.pipe()
+    pid = os.fork()
+    if pid == 0:
+        code = 0
+        try:
+            os.close(r)
+            data = json.dumps(run_case(c)).encode()
+            with os.fdopen(w, "wb") as f:
+                f.write(data)
+        except BaseException as e:      # noqa
+            try:
+                os.write(w, json.dumps(["other", "driver: %s: %s" % (type(e).__name__, e)]).encode())
+            except Exception:
+                pass
+            code = 1
+        os._exit(code)
+    os.close(w)
+    try:
+        with os.fdopen(r, "rb") as f:
+            data = f.read()
+        os.waitpid(pid, 0)
+        pid = None
+    finally:
+        if pid is not None:             # time limit hit in the parent: stop the child
+            try:
+                os.kill(pid, signal.SIGKILL)
+                os.waitpid(pid, 0)
+            except OSError:
+                pass
+    if not data:
+        return ["other", "driver: child died without a result"]
+    return json.loads(data.decode())
+
+
 if __name__ == "__main__":
     import implutil
-    implutil.run_cases(run_case, per_case_s=60)
+    implutil.run_cases(run_case_forked, per_case_s=60)
